@@ -194,16 +194,34 @@ def h_aba(ctx, a=None, b=None):
     fb, pb = _call(*b)
     cache = {}
     ra = _Record(ctx, cache)
+    ctx.scratch["loaded"] = []
+    used0 = ctx.scratch.get("full_used", 0)
     r1 = fa(ra, **pa)
+    l1 = list(ctx.scratch.get("loaded", []))
     t1 = _memfs_texts(ctx)
     try:
+        ctx.scratch["full_used"] = used0
         fb(_Quiet(ctx, {}, prefix="B_"), **{k: v for k, v in pb.items()})
     except core.PathAbort:
         raise
     if ctx.mode == "sym":
         ctx.scratch["memfs"] = {}
+    ctx.scratch["loaded"] = []
+    ctx.scratch["full_used"] = used0         # the second run of A formats its numbers under the same width policy and budget
     r2 = fa(_Replay(ctx, cache, ra._made), **pa)
+    l2 = list(ctx.scratch.get("loaded", []))
     t2 = _memfs_texts(ctx)
+    if l1 or l2:
+        # harnesses that load files written by an independent layout writer (C03): every load of the second run has the outcome
+        # of the corresponding load of the first run
+        tag = f"{a[1]}:{pa.get('fmt', '')}|{b[1]}:{pb.get('fmt', '')}"
+        ctx.oblige("second-run-has-the-same-outcome", len(l1) == len(l2) and all(x[:2] == y[:2] and len(x[2]) == len(y[2])
+                                                                                 for x, y in zip(l1, l2)),
+                   cls=tag, detail=f"{[x[:2] for x in l1]} | then {[x[:2] for x in l2]}"[:300])
+        for x, y in zip(l1, l2):
+            for o1, o2 in zip(x[2], y[2]):
+                for where, f in rt._value_equal(ctx, rt.snapshot(ctx, o1), rt.snapshot(ctx, o2), "obj"):
+                    ctx.oblige("second-run-returns-the-same-object", f, cls=f"{tag}:{where[:50]}")
     if isinstance(r1, dict) and isinstance(r2, dict) and "out" in r1:
         # a loading call: same kind of outcome, same message, same objects (as terms)
         tag = f"{a[1]}:{pa.get('fmt', '')}|{b[1]}:{pb.get('fmt', '')}"
@@ -320,6 +338,19 @@ def jobs(tier):
         for b, tag in ((same, "same-format"), (other, "other-format")):
             out.append(job("C16", f"A;B;A-load[{fmt}|{tag}]", M, "h_aba", dict(a=list(a), b=list(b)), budget_s=300, max_validate=2,
                            max_paths=120))
+    # A;B;A for files in published layouts (independent writers): a file that leaves something to the reader's fall-back rules (A)
+    # around a file of the same format that spells it out (B), and the reverse
+    layout_pairs = [
+        (("harness.c03", "h_pdb", dict(natom=4, element_column=False)), ("harness.c03", "h_pdb", dict(natom=4))),
+        (("harness.c03", "h_pdb", dict(natom=4)), ("harness.c03", "h_pdb", dict(natom=4, element_column=False))),
+        (("harness.c03", "h_xyz", dict(nframes=1, ext=True)), ("harness.c03", "h_xyz", dict(nframes=2, ext=False))),
+        (("harness.c03", "h_gro", dict(natom=2, nframes=1)), ("harness.c03", "h_gro", dict(natom=3, nframes=2))),
+        (("harness.c03", "h_sdf", dict(natom=3, nbond=1)), ("harness.c03", "h_mol2", dict(natom=3))),
+        (("harness.c03", "h_mol2", dict(natom=3)), ("harness.c03", "h_sdf", dict(natom=3, nbond=1))),
+    ]
+    for k, (a, b) in enumerate(layout_pairs):
+        out.append(job("C16", f"A;B;A-layout[{a[1]}|{b[1]}#{k}]", M, "h_aba", dict(a=list(a), b=list(b)), budget_s=300,
+                       max_validate=2, max_paths=60))
     # a lazily consumed trajectory with other loads between its frames
     for fmt, other in (("mol2", "xyz"), ("xyz", "mol2"), ("sdf", "pdb"), ("pdb", "sdf"), ("gro", "xyz"), ("mol2", "mol2"), ("xyz", "xyz")):
         out.append(job("C16", f"interleaved[{fmt}|{other}]", M, "h_interleaved", dict(fmt=fmt, nframes=3, other=other), budget_s=300,
